@@ -86,9 +86,9 @@ type Cfg struct {
 	Userlists   []string     `json:"userlists,omitempty"` // names of the userlist sections
 	Maps        []MapFile    `json:"maps,omitempty"`
 	CrtLists    []CrtList    `json:"crtlists,omitempty"`
-	Files       []string     `json:"files"`                 // files present on disk
-	AuthBinds   []int        `json:"auth_binds,omitempty"`  // ports bound by the auth-proxy frontend
-	AuthIDs     []int        `json:"auth_ids,omitempty"`    // socket ids of those binds
+	Files       []string     `json:"files"`                // files present on disk
+	AuthBinds   []int        `json:"auth_binds,omitempty"` // ports bound by the auth-proxy frontend
+	AuthIDs     []int        `json:"auth_ids,omitempty"`   // socket ids of those binds
 	AuthServers []AuthServer `json:"auth_servers,omitempty"`
 	Outside     []string     `json:"outside,omitempty"` // lines outside any section
 }
